@@ -83,6 +83,11 @@ def base_cases(r, tier):
     pre8 += [F("dst/src/log.~1~", 7, 120), F("dst/src/f1.~2~", 8, 121), F("dst/src/README.~1~", 9, 122)]
     out.append({"name": "backup-prefix-names", "spec": spec8, "pre": pre8, "bs": "4096", "expect_fail": False, "opts": ["--backup", "numbered"]})
     out.append({"name": "backup-prefix-names-auto", "spec": copy.deepcopy(spec8), "pre": copy.deepcopy(pre8), "bs": "4096", "expect_fail": False, "opts": ["--backup", "auto"]})
+    # T11: a second copy over a destination that already holds the tree's symbolic links (several in one directory, stale targets):
+    # refused or replaced, but the same way under every schedule, worker count and driver
+    spec11 = [{"p": "src", "k": "d"}, F("src/a", 100, 301), F("src/b", 5000, 302)] + [{"p": "src/l%d" % k, "k": "l", "target": r.choice(["a", "b", "nowhere"])} for k in range(6)]
+    pre11 = [{"p": "dst", "k": "d"}, {"p": "dst/src", "k": "d"}, F("dst/src/a", 7, 303)] + [{"p": "dst/src/l%d" % k, "k": "l", "target": "stale%d" % k} for k in range(6)]
+    out.append({"name": "relink-existing-links", "spec": spec11, "pre": pre11, "bs": "4096", "expect_fail": False, "per": 30 if tier == "quick" else 150})
     # T10: the same source named twice under -n: whether a worker has already created the copy when the walker meets the second
     # mention must not decide the exit status
     out.append({"name": "same-source-twice-noclobber", "spec": copy.deepcopy(spec), "pre": [{"p": "dst", "k": "d"}], "bs": "4096", "expect_fail": False, "opts": ["-n"],
